@@ -10,6 +10,7 @@
   `OpAgree`    : "computes the same function on every operand" (CC/Simd/Agree.lean).
 -/
 import CC.Simd.Proof.Table
+import CC.Simd.SrcPort
 namespace CC.Thm.C12
 open CC CC.Simd
 
@@ -74,5 +75,11 @@ example : Impl.Avx2.u32x4x2.add (BitVec.allOnes 256) 1#256
 /-- x86 `u128x1` rotation carries bits across the 64-bit halves -/
 example : (Impl.X86.u128x1 true).rotr 8 0x0f0e0d0c0b0a09080706050403020100#128
     = 0x000f0e0d0c0b0a090807060504030201#128 := by decide +kernel
+
+/-- **Source tie, portable backend (word-wise operations).**  `generic.rs` (`u32x4_generic`, `u64x2_generic`,
+    `u128x1_generic`, `u64x4_generic`) and `soft.rs` (`x2<W,G>`, `x4<W>`), regenerated from the repository's current
+    source by tools/inventory_simdport.py, equal the hand-written `Impl.Generic` / `Impl.Soft` operation by operation
+    (fields of `CC.Src.PortWordwise`; individual facts `CC.Src.src_port_*` in lean/CC/Simd/SrcPort.lean). -/
+theorem source_portable_match : CC.Src.PortWordwise := CC.Src.portWordwise
 
 end CC.Thm.C12
